@@ -492,6 +492,27 @@ Proof.
   right. fold (names (flat_map dfs (filter P cs))) in Hin. apply filter_flat_map_names_incl in Hin. exact Hin.
 Qed.
 
+Lemma no_roots_no_kids : forall cs, filter haskids cs = [] ->
+  existsb (fun c => match kids c with [] => false | _ => true end) cs = false.
+Proof.
+  induction cs as [|c cs IH]; intros H; [reflexivity|]. cbn [filter] in H. cbn [existsb]. unfold haskids in H at 1.
+  destruct (kids c); [|discriminate]. cbn [orb]. now apply IH.
+Qed.
+
+Lemma kid_encapsulation : forall us cs0 n encid k ks conns is,
+  load_model_kid E (ma_of us cs0 n "" [] conns is) (el "encapsulation" (opt_attr ident "id" encid) (k :: ks))
+  = ma_of us cs0 n encid [el "encapsulation" (opt_attr ident "id" encid) (k :: ks)] conns is.
+Proof.
+  intros. unfold load_model_kid.
+  replace (is_cellml20 "component" (el "encapsulation" (opt_attr ident "id" encid) (k :: ks))) with false by reflexivity.
+  replace (is_cellml20 "units" (el "encapsulation" (opt_attr ident "id" encid) (k :: ks))) with false by reflexivity.
+  replace (is_cellml20 "import" (el "encapsulation" (opt_attr ident "id" encid) (k :: ks))) with false by reflexivity.
+  replace (is_cellml20 "encapsulation" (el "encapsulation" (opt_attr ident "id" encid) (k :: ks))) with true by reflexivity.
+  unfold el at 1 2. unfold xml_attrs, xml_kids, ma_of.
+  cbn [ma_units ma_comps ma_imports ma_encid ma_encs ma_conns ma_issues].
+  unfold opt_attr, ident. destruct (nonempty encid) eqn:Ee; [|apply nonempty_false in Ee; rewrite Ee]; cbn; rewrite ?app_nil_r; reflexivity.
+Qed.
+
 Theorem load_print_tree_enc : forall m, printable E true m -> no_imports m = true -> no_connections m = true ->
   load E fx true (print_tree E m)
   = ({| m_name := m_name m; m_id := m_id m; m_encid := m_encid m; m_units := map (canon_units E) (m_units m);
@@ -550,7 +571,9 @@ Proof.
     unfold haskids at 1. destruct c as [s ks]. cbn [kids] in *. destruct ks; cbn [negb map]; [|now apply IH].
     rewrite IH by exact Hcs. f_equal. unfold leaf. cbn [shell canon_comp map]. f_equal.
     apply negb_true_iff in Hc. apply nonempty_false in Hc. cbn [shell] in Hc.
-    unfold strip_encid, canon_shell. cbn. rewrite Hc. reflexivity. }
+    unfold strip_encid. cbn. unfold canon_shell. rewrite Hc. reflexivity. }
+  assert (Hk : forallb (fun c => match kids c with [] => false | _ => true end) roots = true).
+  { unfold roots. apply forallb_forall. intros c Hc. apply filter_In in Hc. destruct Hc as [_ Hc]. exact Hc. }
   destruct roots as [|r0 rs] eqn:Eroots.
   - (* no hierarchy at all: no encapsulation element *)
     cbn [map fold_left]. unfold ma_of.
@@ -559,13 +582,11 @@ Proof.
     cbn [flat_map names map] in Hfinal. rewrite remove_names_keep in Hfinal by (intros ? ? []). rewrite app_nil_r in Hfinal.
     rewrite Hfinal.
     assert (Hencid : m_encid m = "").
-    { assert (Hex : existsb (fun c => match kids c with [] => false | _ => true end) cs = false).
-      { fold haskids. clear - Eroots. induction cs as [|c cs0 IH]; [reflexivity|]. cbn [filter] in Eroots. cbn [existsb].
-        destruct (haskids c); [discriminate|]. now apply IH. }
+    { assert (Hex : existsb (fun c => match kids c with [] => false | _ => true end) cs = false) by exact (no_roots_no_kids cs Eroots).
       rewrite Hex in Henc2. cbn [orb] in Henc2. apply negb_true_iff in Henc2. now apply nonempty_false. }
     rewrite link_units_ok.
     + rewrite Hencid. reflexivity.
-    + intros g Hg. rewrite <- (map_map dfs) in Hg.
+    + intros g Hg.
       assert (Hg2 : In g (map (canon_comp E) (flat_map dfs (enc_order cs)))).
       { clear - Hg. induction (enc_order cs) as [|c l IH]; [exact Hg|]. cbn [map flat_map] in *. rewrite map_app. apply in_or_app.
         apply in_app_or in Hg. destruct Hg as [Hg|Hg]; [left; rewrite <- dfs_canon; exact Hg | right; now apply IH]. }
@@ -576,27 +597,14 @@ Proof.
       split; [eapply dfs_list_ok; eassumption|].
       rewrite forallb_forall in Hnimp. specialize (Hnimp d Hd2). now apply negb_true_iff in Hnimp.
   - (* the encapsulation element *)
-    set (encs := map (print_encapsulation ident) (r0 :: rs)) in *.
-    assert (Hencs : encs = print_encapsulation ident r0 :: map (print_encapsulation ident) rs) by reflexivity.
-    rewrite Hencs at 1. cbn [fold_left].
-    unfold load_model_kid at 1.
-    replace (is_cellml20 "component" (el "encapsulation" (opt_attr ident "id" (m_encid m)) encs)) with false by reflexivity.
-    replace (is_cellml20 "units" (el "encapsulation" (opt_attr ident "id" (m_encid m)) encs)) with false by reflexivity.
-    replace (is_cellml20 "import" (el "encapsulation" (opt_attr ident "id" (m_encid m)) encs)) with false by reflexivity.
-    replace (is_cellml20 "encapsulation" (el "encapsulation" (opt_attr ident "id" (m_encid m)) encs)) with true by reflexivity.
-    unfold el at 2 3. unfold xml_attrs, xml_kids. rewrite Hencs at 1.
-    unfold ma_of.
+    cbn [map fold_left].
+    change (ma_of (map (canon_units E) (m_units m)) L 0 "" [] [] []) with (ma_of (map (canon_units E) (m_units m)) L 0 "" [] [] []).
+    rewrite kid_encapsulation. unfold ma_of.
     cbn [ma_units ma_comps ma_imports ma_encid ma_encs ma_conns ma_issues na_name na_id na_has_name na_issues
          fst snd app fold_left cs_comps cs_eqv cs_used cs_issues].
-    assert (Hid : fold_left (fun s0 a => if is_id_attr a then (a_val a, snd s0) else (fst s0, snd s0 ++ [err "ENCAPSULATION_ELEMENT"]))
-                            (opt_attr ident "id" (m_encid m)) ("", []) = (m_encid m, [])).
-    { unfold opt_attr, ident. destruct (nonempty (m_encid m)) eqn:Ee; [reflexivity|]. apply nonempty_false in Ee. rewrite Ee. reflexivity. }
-    rewrite Hid. cbn [fst snd app].
     unfold load_encapsulation, el, xml_kids.
     change {| es_comps := L; es_used := []; es_issues := [] |} with (mk_st L [] []).
-    assert (Hk : forallb (fun c => match kids c with [] => false | _ => true end) (r0 :: rs) = true).
-    { rewrite <- Eroots. unfold roots. apply forallb_forall. intros c Hc. apply filter_In in Hc. destruct Hc as [_ Hc]. exact Hc. }
-    rewrite Eroots in Hconds, Hfinal.
+    change (print_encapsulation ident r0 :: map (print_encapsulation ident) rs) with (map (print_encapsulation ident) (r0 :: rs)).
     rewrite (enc_fold (r0 :: rs) L [] [] Hk Hconds).
     cbn [mk_st es_comps es_used es_issues fst snd app].
     rewrite enc_result_eq by (apply (c_nodup _ _ _ Hconds)). rewrite Hfinal.
@@ -612,6 +620,47 @@ Proof.
         eapply Permutation_in; [apply enc_order_perm | exact Hc]. }
       split; [eapply dfs_list_ok; eassumption|].
       rewrite forallb_forall in Hnimp. specialize (Hnimp d Hd2). now apply negb_true_iff in Hnimp.
+Qed.
+
+(** ** content up to child order *)
+Lemma src_eq_refl : forall a, src_eq a a.
+Proof. intros [i|]; simpl; auto. Qed.
+
+Lemma shell_eq_refl : forall s, shell_eq s s.
+Proof. intros s. unfold shell_eq. repeat split; auto using src_eq_refl, Permutation_refl. Qed.
+
+Lemma comp_eq_refl : forall c, comp_eq c c.
+Proof.
+  induction c as [s ks IH] using comp_ind'. apply (CompEq s s ks ks ks); [apply shell_eq_refl | apply Permutation_refl|].
+  induction ks as [|k r IHr]; [constructor|]. inversion IH; subst. constructor; auto.
+Qed.
+
+Lemma Forall2_refl : forall {A} (R : A -> A -> Prop) l, (forall x, R x x) -> Forall2 R l l.
+Proof. induction l; intros; constructor; auto. Qed.
+
+Lemma units_eq_refl : forall u, units_eq u u.
+Proof. intros u. unfold units_eq. repeat split; auto using src_eq_refl, Permutation_refl. Qed.
+
+Lemma content_eq_refl : forall m, content_eq m m.
+Proof.
+  intros m. unfold content_eq. repeat split; auto.
+  - exists (m_units m). split; [apply Permutation_refl | apply Forall2_refl; apply units_eq_refl].
+  - exists (m_comps m). split; [apply Permutation_refl | apply Forall2_refl; apply comp_eq_refl].
+Qed.
+
+(** stage 3 as a statement about content *)
+Theorem roundtrip_enc : forall m, printable E true m -> no_imports m = true -> no_connections m = true ->
+  exists m', print_model E true m = Some (print_tree E m) /\ load E fx true (print_tree E m) = (m', [])
+             /\ content_eq m' (canon E m).
+Proof.
+  intros m H Hni Hnc. eexists. split; [now apply print_model_printable|]. split; [now apply load_print_tree_enc|].
+  unfold content_eq, canon. cbn [m_name m_id m_encid m_units m_comps m_eqv].
+  assert (Heqv : m_eqv m = []) by (unfold no_connections in Hnc; destruct (m_eqv m); [reflexivity | discriminate]).
+  rewrite Heqv. repeat split; auto.
+  - exists (map (canon_units E) (m_units m)). split; [apply Permutation_refl | apply Forall2_refl; apply units_eq_refl].
+  - exists (map (canon_comp E) (enc_order (m_comps m))). split.
+    + apply Permutation_map. apply Permutation_sym. apply enc_order_perm.
+    + apply Forall2_refl. apply comp_eq_refl.
 Qed.
 
 End Enc.
